@@ -80,10 +80,15 @@ def run(tier):
     stats = {'certified': 0, 'gap_only': 0, 'uncertified': 0}
     srcs = {}
     corr = {'ok': 0, 'tie': 0, 'diff': 0}
+    corr_static = {'ok': 0, 'ok_with_tie_flag': 0, 'tie': 0, 'diff': 0}
     viols, diffs, errors, samples = [], [], [], []
     nontrivial = set()
     hist, times = {}, {}
     twin_pairs = twin_bad = 0
+    # C02 stationarity of the model's recomputed multipliers (theorems C02_compute_dfdv_stationary / C02_relm_stationary,
+    # Vpsc/VpscStationary.v) evaluated by the extracted model on every state it visits during a solve/satisfy op
+    stat = {'states_evaluated': 0, 'ops_evaluated': 0, 'ops_with_a_failing_state': 0, 'returns_with_all_blocks_fresh': 0,
+            'returns_gap_bound_max': 0.0, 'returns_min_multiplier_min': None, 'returns_min_multiplier_below_minus_1e-4': 0}
     for label, impl, insts, enum in sets:
         real, drv, errs, dts = L.run_batch(insts, impl, tag='c02' + label, enum=enum)
         errors += [str(e) for e in errs]
@@ -106,11 +111,38 @@ def run(tier):
             for x in v:
                 x['set'] = label
                 viols.append((ins, x))
+            for k, q in sorted(((d or {}).get('q') or {}).items()):
+                stat['ops_evaluated'] += 1
+                stat['states_evaluated'] += q['states']
+                if not q['ok']:
+                    stat['ops_with_a_failing_state'] += 1
+                    diffs.append({'set': label, 'impl': 'model', 'instance': L.ins_json(ins), 'replay_input': L.replay_text(ins), 'op_index': k,
+                                  'detail': 'VpscKktB.stationarityb is false on a state the extracted model visits while executing this op: the '
+                                            'multipliers recomputed by reset_active_lm + compute_dfdv do not satisfy the stationarity equation at a '
+                                            'variable whose block statistics are up to date (contradicts C02_relm_stationary)'})
+                mres = ((d or {}).get('m') or {}).get(k) or {}
+                if q['fresh'] == len(ins['vs']) and k < len(ins['ops']) and ins['ops'][k][0] == 'S' and '1' not in mres.get('U', '1'):
+                    # returns of solve() with nothing flagged
+                    stat['returns_with_all_blocks_fresh'] += 1
+                    if q['gap'] is not None:
+                        stat['returns_gap_bound_max'] = max(stat['returns_gap_bound_max'], q['gap'])
+                    if q['minlm'] is not None:
+                        m0 = stat['returns_min_multiplier_min']
+                        stat['returns_min_multiplier_min'] = q['minlm'] if m0 is None else min(m0, q['minlm'])
+                        if q['minlm'] < -1e-4:
+                            stat['returns_min_multiplier_below_minus_1e-4'] += 1
             if ins['kind'] == 'I':
                 s, det = L.eval_corr(ins, rs, d, impl)
                 corr[s] += 1
                 if s == 'diff':
                     diffs.append({'set': label, 'impl': impl, 'instance': L.ins_json(ins), 'replay_input': L.replay_text(ins), 'detail': det})
+            if ins['kind'] == 'S' and impl == 'vpsc' and rs:
+                s, det = L.eval_corr_static(ins, rs, d)
+                mt = ((d or {}).get('t') or {}).get(rs[0]['op']) or {}
+                corr_static['ok_with_tie_flag' if (s == 'ok' and mt.get('tie')) else s] += 1
+                if s == 'diff':
+                    diffs.append({'set': label, 'impl': impl, 'instance': L.ins_json(ins), 'replay_input': L.replay_text(ins), 'detail': det,
+                                  'model': 'Vpsc/StaticModel.v'})
             if 'twin_of' in ins:
                 o = byid.get(ins['twin_of'])
                 ro, rt = real.get(o['id'], []), rs
@@ -169,8 +201,16 @@ def run(tier):
                     'exhaustive': False,
                     'exhaustive_note': 'set exhaustive-small (with the exact active-set enumeration oracle always on): ' +
                                        ('1/5 of the n=2 family, rotating with the seed' if quick else 'the complete n=2 and n=3 families of vlib/c01lib.gen_exhaustive'),
-                    'samples': samples, 'traces_validated_against_impl': sum(corr.values()), 'correspondence': corr,
+                    'samples': samples, 'traces_validated_against_impl': sum(corr.values()) + sum(corr_static.values()), 'correspondence': corr,
+                    'correspondence_static_solver': dict(corr_static, what='extracted Vpsc/StaticModel.v vs vpsc::Solver::solve() on every static instance (partition, active flags, '
+                                                        'thrown constraint exactly; positions to 1e-9*scale); tie = differed while the model compared keys closer than 1e-7'),
                     'certificates': dict(stats, sources=srcs, legend='R = multipliers from the real solver\'s active forest, M = from the model\'s, E = enumeration'),
+                    'model_stationarity': dict(stat, what='VpscKktB.stationarityb evaluated by the extracted model on every state it visits during every '
+                                               'solve/satisfy op (n <= 40): findMinLM is re-run on the block of every variable and the stationarity residual of '
+                                               'KKT.v must be exactly 0 at every variable whose block statistics are the sums over the block (always, except AD '
+                                               'between a change of a desired position and the next moveBlocks); gap bound / min multiplier = KKT.kkt_gap and '
+                                               'the smallest recomputed multiplier of an active inequality on the states the model returns from solve() with nothing flagged; a failure is '
+                                               'reported as a correspondence difference'),
                     'order_independence_pairs': twin_pairs, 'order_dependent': twin_bad,
                     'known_finding_hits': known_hits, 'input_histogram': hist,
                     'set_times_s(harness,driver)': times, 'machinery_errors': errors[:5]})
